@@ -239,7 +239,9 @@ func TestVerifC09(t *testing.T) {
 					}
 				}
 			}
+			mark1 := w.ScratchMark()
 			for _, k := range crashPoints(n, r, verifutil.Thorough()) {
+				w.DisposeSince(mark1) // scratch nodes of the previous crash point
 				phase := writePhase(wlog[k-1])
 				rep.Progress("C09 scenario %d: %s height %d crash at write %d/%d (%s)", sc, scenario, block.Height(), k, n, phase)
 				cdb := NewCrashDB(memFromDump(p.dump))
@@ -376,7 +378,9 @@ func forkSwitchCrash(w *World, rep *verifutil.Report, r *verifutil.Rng, sc, at i
 	for _, fb := range fork {
 		feed = append(feed, fb.Block)
 	}
+	mark2 := w.ScratchMark()
 	for _, k := range crashPoints(n, r, verifutil.Thorough()) {
+		w.DisposeSince(mark2) // scratch nodes of the previous crash point
 		phase := writePhase(wlog[k-1])
 		rep.Progress("C09 scenario %d: fork switch at %d crash at write %d/%d (%s)", sc, head, k, n, phase)
 		cdb := NewCrashDB(CloneDB(base.DB))
